@@ -410,35 +410,20 @@ def hash_reads_what_eq_compares(ctx):
 
 # ---------------------------------------------------------------------------------------- merge precedence
 def definition_merge_overrides(ctx):
-    """The view of all definitions merges the mixins in order, later ones overriding earlier ones, own last."""
+    """The view of all definitions merges the mixins in order, later ones overriding earlier ones, own last
+    (decided by interpreting the reader, see c16.merged_view)."""
+    from .c16 import _mixins_loops, merged_view
+
     oc = A.function_class(ctx.repo)
-    n = 0
+    rd = None
     for m in oc.methods.values():
-        rv = recv_name(m)
-        loops = [lp for lp in ast.walk(m.node) if isinstance(lp, ast.For) and is_self_attr(lp.iter, "mixins", selfname=rv) or (isinstance(lp, ast.For) and isinstance(lp.iter, ast.Call) and lp.iter.args and is_self_attr(lp.iter.args[0], "mixins", selfname=rv))]
-        rets = [r for r in ast.walk(m.node) if isinstance(r, ast.Return) and isinstance(r.value, ast.Name)]
-        if not loops or not rets:
-            continue
-        acc = rets[-1].value.id
-        if not any(isinstance(v, ast.Dict) or (isinstance(v, ast.Call) and call_name(v) == "dict") for v in _local_defs(m.node, acc)):
-            continue
-        n += 1
-        ctx.touch(m)
-        bad = None
-        for lp in loops:
-            for x in ast.walk(lp):
-                if isinstance(x, ast.Call) and isinstance(x.func, ast.Attribute) and dotted(x.func.value) == acc and x.func.attr == "setdefault":
-                    bad = x
-                if isinstance(x, ast.If) and any(isinstance(a, ast.Compare) and any(isinstance(o, (ast.In, ast.NotIn)) for o in a.ops) and dotted(a.comparators[0]) == acc for a in ast.walk(x.test)):
-                    bad = x
-        ctx.ob(
-            f"{m.key}:later-overrides-earlier",
-            m.loc(bad) if bad is not None else m.loc(loops[0]),
-            "definitions of a later mixin override those of an earlier one with the same signature (plain update in mixin order)",
-            bad is None,
-            f"`{short(bad, 50) if bad is not None else ''}` keeps the first definition: a subclass's own re-definition of an inherited signature (added as a later mixin) is shadowed by the inherited one",
-        )
-    ctx.require(n >= 1, f"{oc.key}: the merged view of definitions was not found")
+        if _mixins_loops(m) and any(is_self_attr(x, "_defns", selfname=recv_name(m)) for x in ast.walk(m.node)) and m.name != "__init__":
+            if any(isinstance(x, ast.Return) for x in ast.walk(m.node)):
+                rd = m
+                break
+    ctx.require(rd is not None, "effective-table reader not found")
+    ctx.touch(rd)
+    merged_view(ctx, rd)
 
 
 def conversion_leaves_argument_alone(ctx):
